@@ -31,6 +31,7 @@ BASES: Dict[str, Tuple[str, ...]] = {
     "builtin:float": (OBJ,),
     "builtin:bytes": (OBJ,),
     "builtin:NoneType": (OBJ,),
+    "builtin:dict": (OBJ,),
     "class:Base": (OBJ,),
     "class:Mid": ("class:Base",),
     "class:Leaf1": ("class:Mid",),
@@ -86,6 +87,30 @@ def g(origin: str, *args: V) -> R:
 
 
 ELL = K(Ellipsis)
+DICT_CLS = "builtin:dict"
+
+
+def td(name: str, fields: Dict[str, V], total: bool = True) -> R:
+    return R("td", __module__=K("monkeytype.typing"), __qualname__=K(name), __name__=K(name), __total__=K(total),
+             __annotations__=R("dict", items=tuple((K(k), v) for k, v in fields.items())))
+
+
+def anon_td(required: Dict[str, V], optional: Optional[Dict[str, V]] = None) -> R:
+    """the anonymous TypedDict inference produces for a small dict with string keys (monkeytype.typing.make_typed_dict)"""
+    return td("DUMMY_NAME", {"required_fields": td("DUMMY_REQUIRED_NAME", required), "optional_fields": td("DUMMY_OPTIONAL_NAME", optional or {}, )})
+
+
+def is_td(t: V) -> bool:
+    return isinstance(t, R) and t.kind == "td"
+
+
+def td_fields(t: R) -> Tuple[Dict[str, V], Dict[str, V]]:
+    """(required, optional) fields of an anonymous TypedDict; a named one: all fields required or all optional by `total`"""
+    ann = {k.v: v for k, v in t.fields["__annotations__"].fields["items"]}
+    if t.fields["__name__"] == K("DUMMY_NAME") and set(ann) == {"required_fields", "optional_fields"} and all(is_td(x) for x in ann.values()):
+        return ({k.v: v for k, v in ann["required_fields"].fields["__annotations__"].fields["items"]},
+                {k.v: v for k, v in ann["optional_fields"].fields["__annotations__"].fields["items"]})
+    return (ann, {}) if t.fields["__total__"] == K(True) else ({}, ann)
 
 
 def is_class(t: V) -> bool:
@@ -128,6 +153,25 @@ def admits(res: V, t: V) -> bool:
         return any(admits(m, t) for m in res.fields["args"].v)
     if is_class(res) and is_class(t):
         return res.name in mro(t.name)  # type: ignore[union-attr]
+    if is_td(t):
+        req_t, opt_t = td_fields(t)  # the values of t: dicts with every required key, any of the optional ones, nothing else
+        if is_class(res):
+            return res.name in (DICT_CLS, OBJ)  # type: ignore[union-attr]
+        if is_td(res):
+            req_r, opt_r = td_fields(res)
+            return set(req_r) <= set(req_t) and set(req_t) | set(opt_t) <= set(req_r) | set(opt_r) and \
+                all(admits({**opt_r, **req_r}[k], v) for k, v in {**opt_t, **req_t}.items())
+        if isinstance(res, R) and res.kind == "generic" and res.fields["origin"] == K("Dict") and isinstance(res.fields["args"], K) and res.fields["args"].v is not None \
+                and len(res.fields["args"].v) == 2:
+            kt, vt = res.fields["args"].v
+            return admits(kt, S("builtin:str")) and all(admits(vt, v) for v in {**opt_t, **req_t}.values())
+        return False
+    if is_td(res):
+        # a TypedDict admits the empty dict (recorded as Dict[Any, Any]) only if it requires no key
+        if isinstance(t, R) and t.kind == "generic" and t.fields["origin"] == K("Dict") and isinstance(t.fields["args"], K) and t.fields["args"].v is not None \
+                and all(a == ANY for a in t.fields["args"].v):
+            return not td_fields(res)[0]
+        return False
     if isinstance(res, R) and res.kind == "generic" and isinstance(t, R) and t.kind == "generic":
         ro, to = res.fields["origin"].v, t.fields["origin"].v
         ra, ta = res.fields["args"], t.fields["args"]
@@ -231,6 +275,15 @@ class RewriterScenario:
             if attr in ("__bases__", "__mro__", "__name__", "__qualname__"):
                 st.pending = "AttributeError"
                 return U("generic alias has no " + attr)
+        if is_td(obj):
+            if attr in obj.fields:  # type: ignore[union-attr]
+                return obj.fields[attr]  # type: ignore[union-attr]
+            if attr == "__bases__":
+                return K((S(DICT_CLS),))
+            if attr == "__mro__":
+                return K((obj, S(DICT_CLS), S(OBJ)))
+            st.pending = "AttributeError"
+            return U("a TypedDict class has no " + attr)
         if is_class(obj):
             if attr == "__module__":
                 return K("builtins" if obj.name.startswith("builtin:") else "pkg.mod")  # type: ignore[union-attr]
@@ -320,7 +373,7 @@ class RewriterScenario:
             return None
         if d == "isinstance" and len(args) == 2:
             if args[1] == S("builtin:type"):
-                return K(is_class(args[0]))
+                return K(is_class(args[0]) or is_td(args[0]))
             if args[1] == S("mod:typing.TypeVar"):
                 return K(False)  # the type universe has no type variables
             return None
@@ -328,11 +381,18 @@ class RewriterScenario:
             a, b = args
             if is_class(a) and is_class(b):
                 return K(b.name in mro(a.name))  # type: ignore[union-attr]
+            if is_td(b) and (is_class(a) or is_td(a)):
+                st.pending = "TypeError"  # TypedDict does not support instance and class checks
+                return U("issubclass against a TypedDict")
+            if is_td(a) and is_class(b):
+                return K(b.name in (DICT_CLS, OBJ))  # type: ignore[union-attr]
             st.pending = "TypeError"  # issubclass() arg 1 must be a class
             return U("issubclass on a non-class")
         if d in ("inspect.getmro",) and len(args) == 1:
             if is_class(args[0]):
                 return K(tuple(S(b) for b in mro(args[0].name)))  # type: ignore[union-attr]
+            if is_td(args[0]):
+                return K((args[0], S(DICT_CLS), S(OBJ)))
             st.pending = "AttributeError"  # getmro reads cls.__mro__
             return U("getmro on a non-class")
         if d == "zip" and len(args) == 2:
@@ -356,6 +416,14 @@ class RewriterScenario:
         if d == "tuple" and len(args) == 1:
             seq = self.ri.interp.iterate(args[0], st)
             return K(tuple(seq)) if seq is not None else None
+        if d.split(".")[-1] == "TypedDict" and len(args) == 2 and isinstance(args[0], K):
+            fs = self.ri.interp.iterate(args[1].fields["items"] if isinstance(args[1], R) and args[1].kind == "dict" else K(tuple(K(kv) for kv in st.dict_of(args[1]).items())) if isinstance(args[1], Ref) else args[1], st) \
+                if not (isinstance(args[1], R) and args[1].kind == "dict") else list(args[1].fields["items"])
+            if fs is None:
+                return None
+            pairs = [tuple(x.v) if isinstance(x, K) else tuple(x) for x in fs]
+            return R("td", __module__=K("monkeytype.typing"), __qualname__=args[0], __name__=args[0], __total__=kwargs.get("total", K(True)),
+                     __annotations__=R("dict", items=tuple((k_, st.freeze(v_)) for k_, v_ in pairs)))
         callee = self.ri.resolve(call, fval)
         if callee is not None and callee.module.name in (TY, "monkeytype.compat"):
             name = callee.qualname
@@ -371,8 +439,10 @@ class RewriterScenario:
                 return K(o1 is not None and o1 == o2)
             if name == "is_list":
                 return K(self._origin_of(a0) == "List")
-            if name == "is_typed_dict" or name == "is_anonymous_typed_dict":
-                return K(False)
+            if name == "is_typed_dict":
+                return K(is_td(a0))
+            if name == "is_anonymous_typed_dict":
+                return K(is_td(a0) and a0.fields["__name__"] == K("DUMMY_NAME"))  # type: ignore[union-attr]
             if name == "name_of_generic":
                 return K(self._origin_of(a0))
             if name == "types_equal" and len(args) == 2:
@@ -516,6 +586,10 @@ def deep_inputs() -> List[V]:
         g("List", union(g("Iterator", ANY), i)), g("Tuple"), g("List", g("Tuple")), g("Dict", STR, union(g("Tuple"), g("Tuple", i))),
         g("Type", BASE), g("List", union(g("Type", BASE), g("Type", L1))), S("mod:typing.Callable"), g("List", union(S("mod:typing.Callable"), i)),
         g("DefaultDict", STR, union(LA, LI)), g("DefaultDict", STR, union(g("DefaultDict", ANY, ANY), g("DefaultDict", STR, INT))),
+        # generated TypedDicts: as members of a raw union (a generator's yields), as containers of unions, inside containers
+        g("Iterator", union(DAA, anon_td({"a": i}))), union(anon_td({"a": i}), DAA), union(DAA, anon_td({}, {"b": s_}), i),
+        anon_td({"a": union(LA, LI)}), anon_td({"a": union(DSI, DSS)}, {"b": union(SA, SI)}), g("List", anon_td({"a": union(i, s_)}, {"b": LA})),
+        g("Tuple", anon_td({"a": i}), anon_td({"a": union(L1, L2)})), union(anon_td({"a": i}), anon_td({"a": i}, {"b": s_}), DSI),
     ]
     return out
 
@@ -541,6 +615,11 @@ def show(t: Any) -> str:
         if isinstance(a, K) and a.v == ():
             return f"{t.fields['origin'].v}[()]"
         return f"{t.fields['origin'].v}[{', '.join(show(x) for x in a.v)}]" if isinstance(a, K) else repr(t)
+    if is_td(t):
+        if t.fields["__name__"] == K("DUMMY_NAME"):
+            rq, op = td_fields(t)
+            return "TypedDict{" + ", ".join([f"{k}: {show(v)}" for k, v in rq.items()] + [f"{k}?: {show(v)}" for k, v in op.items()]) + "}"
+        return f"TypedDict({t.fields['__name__'].v})"
     if isinstance(t, K) and t.v is Ellipsis:
         return "..."
     return repr(t)
@@ -561,6 +640,8 @@ ALPHABET: List[V] = [
     g("Tuple"), g("Tuple", INT), g("Tuple", INT, INT), g("Tuple", STR), g("Type", BASE),
     S("mod:typing.Callable"), g("Iterator", ANY), g("Iterator", INT), g("Generator", INT, NONE_T, NONE_T), g("Generator", INT, NONE_T, STR),
     R("generic", origin=K("Tuple"), args=K(None)),  # bare Tuple
+    # anonymous TypedDicts (a generator's yield types are joined by a raw Union: they meet empty containers and each other un-merged)
+    anon_td({"a": cls("builtin:int")}), anon_td({"a": cls("builtin:int")}, {"b": cls("builtin:str")}), anon_td({}, {"b": cls("builtin:str")}),
 ]
 SMALL = [INT, STR, NONE_T, L1, L2, OTH, g("List", INT), g("List", ANY), g("Dict", STR, INT), g("Dict", STR, STR), g("Tuple"), g("Tuple", INT)]
 
